@@ -227,3 +227,38 @@ def sort_fast_path(ctx: Ctx) -> None:
     gv = [norm(a.value) for a in walk_local(fnode) if isinstance(a, ast.Assign) and norm(a.targets[0]) == 'group_values']
     good = gv == ['frame_sorted._blocks._extract_array(column_key=iloc_key)', 'frame_sorted._blocks._extract_array(row_key=iloc_key)']
     (ctx.ok if good else ctx.bad)(R, f, f.node, 'group values and labels are read from the sorted frame' if good else f'group values: {gv}', key='values-from-sorted')
+
+
+def group_key_fallback(ctx: Ctx) -> None:
+    R = 'I.group-key-fallback'
+    ctx.rule(R, 'sibling agreement of the two attempts of util.array_to_groups_and_locations: when values are not comparable the grouping is repeated on a string form of the '
+             'same array; the fallback must stay a one-to-one image of the key rows — the same array under an elementwise conversion (`array.astype(str)`), uniqued along '
+             'the same axis as the first attempt; reducing a key row to one string (join / concatenation) or dropping the axis merges distinct keys into one group', floor=1)
+    prog = ctx.prog
+    f = prog.func('util.array_to_groups_and_locations')
+    tries = [t for t in walk_local(f.node) if isinstance(t, ast.Try)]
+    ctx.require(len(tries) == 1 and tries[0].handlers, 'array_to_groups_and_locations retries under an except handler')
+    t = tries[0]
+
+    def uniques(stmts: tp.Sequence[ast.stmt]) -> tp.List[ast.Call]:
+        return [c for s in stmts for c in ast.walk(s) if isinstance(c, ast.Call) and call_name(c) == 'np.unique']
+    first = uniques(t.body)
+    second = [c for h in t.handlers for c in uniques(h.body)]
+    ctx.require(len(first) == 1 and len(second) >= 1, 'one np.unique per attempt')
+    arr = f.params[0]
+    inl = roles.Inliner(f.node)
+    for i_c, c in enumerate(second):
+        key = f'array_to_groups_and_locations:fallback#{i_c}'
+        a0 = inl.expr(c.args[0]) if c.args else None
+        # <array>.astype(<type>) of the parameter itself
+        elementwise = isinstance(a0, ast.Call) and isinstance(a0.func, ast.Attribute) and a0.func.attr == 'astype' and norm(a0.func.value) == arr
+        same_axis = norm(kwarg(c, 'axis')) == norm(kwarg(first[0], 'axis'))
+        # the axis variable is not rebound inside the handler
+        ax = kwarg(first[0], 'axis')
+        rebound = isinstance(ax, ast.Name) and any(isinstance(s, ast.Assign) and any(isinstance(x, ast.Name) and x.id == ax.id for x in s.targets) for h in t.handlers for b in h.body for s in ast.walk(b))
+        if elementwise and same_axis and not rebound:
+            ctx.ok(R, f, c, f'the fallback uniques `{norm(a0)}` along the same axis as the first attempt', key=key)
+        else:
+            why = (f'uniques `{norm(a0)[:50]}` (not an elementwise image of `{arr}`)' if not elementwise else
+                   ('along another axis than the first attempt' if not same_axis else 'after rebinding the axis'))
+            ctx.bad(R, f, c, f'the string fallback {why}: distinct key rows can receive the same group id (members no longer share the key that labels the group)', key=key)
